@@ -20,7 +20,11 @@ RULE = (
     'identical whole-hierarchy snapshots at one instant, no due update '
     'unapplied at an invocation, step phase complete, equal snapshots per '
     'step layer, and the emitted rows are identical across all '
-    'permutations of one world. A case is one (world, permutation).')
+    'permutations of one world. A case is one (world, permutation). '
+    'Gated worlds: one process is quiet at its first poll(s) and starts '
+    'later (due times from the trace). Migrate worlds: a compartment '
+    'whose sensor reads its environment through ".." is moved by a step; '
+    'the view must be the committed state of where it lives.')
 ASSUMPTIONS = [
     'updates commute: token variables are compared as multisets',
     'worlds with _move/_delete aimed at a process due in the same batch '
@@ -33,12 +37,19 @@ def ordered(d, order, reverse_inner=False):
     return {k: d[k] for k in order}
 
 
-def world(tss, n_steps, script, perm_p, perm_s, rev_ports, rev_state):
+def world(tss, n_steps, script, perm_p, perm_s, rev_ports, rev_state,
+          gate=None):
+    """gate: None | (process index, number of initial polls at which its
+    update condition is false): the process is quiet first and starts
+    later, at an instant decided by the other processes."""
     procs = {}
     topo_p = {}
     for i, ts in enumerate(tss):
         pid = f'p{i}'
         spec = sched.probe_spec(pid, ts, 'always', log_snapshot=True)
+        if gate is not None and gate[0] == i:
+            spec['cond'] = {'$n': {k: False for k in range(gate[1])},
+                            '$else': True}
         spec['schema']['priv']['last'] = {
             '_default': None, '_updater': 'set', '_emit': True}
         spec['update']['priv']['last'] = '$tokval'
@@ -124,7 +135,7 @@ def world(tss, n_steps, script, perm_p, perm_s, rev_ports, rev_state):
             'topology': topology, 'state': state, 'script': list(script),
             'family': 'O', 'procs': [(ts, 'always') for ts in tss],
             'perm': (tuple(perm_p), tuple(perm_s), rev_ports, rev_state),
-            'tss': tuple(tss), 'n_steps': n_steps,
+            'tss': tuple(tss), 'n_steps': n_steps, 'gate': gate,
             'step_ids': step_ids,
             'generation': {f'st{k}': (1 if k in deps else 0)
                            for k in step_ids}}
@@ -153,6 +164,19 @@ def check_one(spec, ex):
     t0 = 0
     ref = sched.ideal_timeline(spec['procs'], spec['script'], t0)
     due = sorted(a for seq in ref.values() for a, _ in seq)
+    if spec.get('gate') is not None:
+        # a process that is quiet first starts at an instant the others
+        # decide: an update is due when the interval it was computed for
+        # ends (start + timestep argument)
+        # (start = the time up to which the process had been simulated,
+        # which lags behind the clock after a non-forcing call)
+        due, start = [], {}
+        for ev in ex.trace:
+            if ev[0] == 'poll':
+                start[ev[1]] = ev[7] if ev[7] is not None else ev[4]
+            elif ev[0] == 'invoke' and not ev[7]:
+                due.append(start.get(ev[1], ev[4]) + ev[5])
+        due.sort()
     # walk the trace: groups of process invocations at one instant
     last_proc = None       # (time, snapshot json, idx)
     applied = 0
@@ -174,7 +198,9 @@ def check_one(spec, ex):
             # (ii) nothing due is still unapplied, steps are done
             n_due = sum(1 for a in due if a <= t)
             if snap['shared']['num'] != n_due:
-                V('C04.committed', 'due-update-unapplied-at-invocation',
+                V('C04.committed', 'due-update-unapplied-at-invocation'
+                  if snap['shared']['num'] < n_due else
+                  'update-applied-before-it-was-due',
                   f'{pid} invoked at t={t} sees shared.num='
                   f'{snap["shared"]["num"]} but {n_due} updates were due')
                 return out
@@ -282,10 +308,14 @@ def perms(n_p, n_s):
 
 
 def run_job(job, acc):
-    tss, n_steps, script = job
+    if job[0] == 'migrate':
+        run_migrate(job, acc)
+        return
+    tss, n_steps, script = job[:3]
+    gate = job[3] if len(job) > 3 else None
     base = None
     for perm in perms(len(tss), n_steps):
-        spec = world(tss, n_steps, script, *perm)
+        spec = world(tss, n_steps, script, *perm, gate=gate)
         ex = worlds.execute(spec, guard_factory=sched.lasso_guard)
         p = sched.Parsed(ex)
         sched.record_states(acc, p)
@@ -310,6 +340,118 @@ def run_job(job, acc):
                                                          n_steps))})
 
 
+# ----------------------------------------------------------------------
+# a compartment migrates: its process reads the environment through '..'
+
+def migrate_world(tick, issuer, ts_sensor, order):
+    leaf = lambda d: {'_default': d, '_emit': True}  # noqa
+
+    def sensor(pid):
+        return {'cls': 'P', 'pid': pid, 'ts': ts_sensor,
+                'log_snapshot': True,
+                'schema': {'env': {'nutrient': leaf(0)},
+                           'own': {'seen': {'_default': -1,
+                                            '_updater': 'set',
+                                            '_emit': True}}},
+                'update': {'own': {'seen': {'$state': ('env',
+                                                       'nutrient')}}}}
+    n = tick if issuer == 'P' else tick + 1
+    mover = {'cls': issuer, 'pid': 'mover', 'ts': 1, 'log_states': False,
+             'schema': {'A': {}, 'B': {}},
+             'update': {'$n': {n: {'A': {'_move': [{
+                 'source': ('c1',), 'target': 'B'}]}}}, '$else': {}}}
+    feeder = {'cls': 'P', 'pid': 'feeder', 'ts': 1, 'log_states': False,
+              'schema': {'a': {'nutrient': leaf(0)},
+                         'b': {'nutrient': leaf(0)}},
+              'update': {'a': {'nutrient': 1}, 'b': {'nutrient': 10}}}
+    parts = {
+        'feeder': (feeder, {'a': ('envA',), 'b': ('envB',)}),
+        'cellA': ({'c1': {'sensor': sensor('s1')}},
+                  {'c1': {'sensor': {'env': ('..', '..'), 'own': ()}}}),
+        'cellB': ({'c2': {'sensor': sensor('s2')}},
+                  {'c2': {'sensor': {'env': ('..', '..'), 'own': ()}}}),
+        'mover': (mover, {'A': ('envA', 'cells'), 'B': ('envB', 'cells')}),
+    }
+    processes, topology, steps, flow = {}, {}, {}, {}
+
+    def put(tree, path, value):
+        for k in path[:-1]:
+            tree = tree.setdefault(k, {})
+        tree[path[-1]] = value
+    for name in order:
+        spec, topo = parts[name]
+        if name == 'cellA':
+            put(processes, ('envA', 'cells'), dict(
+                processes.get('envA', {}).get('cells', {}), **spec))
+            put(topology, ('envA', 'cells'), dict(
+                topology.get('envA', {}).get('cells', {}), **topo))
+        elif name == 'cellB':
+            put(processes, ('envB', 'cells'), dict(
+                processes.get('envB', {}).get('cells', {}), **spec))
+            put(topology, ('envB', 'cells'), dict(
+                topology.get('envB', {}).get('cells', {}), **topo))
+        elif name == 'mover' and issuer == 'S':
+            steps['mover'], flow['mover'] = spec, []
+            topology['mover'] = topo
+        else:
+            processes[name] = spec
+            topology[name] = topo
+    return {'processes': processes, 'steps': steps, 'flow': flow,
+            'topology': topology,
+            'state': {'envA': {'nutrient': 5}, 'envB': {'nutrient': 50}},
+            'script': [('update', 4)], 'family': 'migrate',
+            'job': ('migrate', tick, issuer, ts_sensor, tuple(order))}
+
+
+def migrate_jobs(ctx):
+    out = []
+    names = ('feeder', 'cellA', 'cellB', 'mover')
+    orders = list(itertools.permutations(names))
+    # the mover is a step and the sensor is idle when it is moved (a move
+    # of a process that has an update due or in flight is K2, see C10)
+    for tick in (0, 1, 2):
+        for ts in (1, 2):
+            if (tick + 1) % ts:
+                continue
+            for order in (orders[::2] if ctx.quick else orders):
+                out.append(('migrate', tick, 'S', ts, order))
+    return out
+
+
+def run_migrate(job, acc):
+    _, tick, issuer, ts, order = job
+    spec = migrate_world(tick, issuer, ts, order)
+    ex = worlds.execute(spec)
+    V = lambda rule, fp, msg: acc.violate(  # noqa
+        fw.violation(rule, fp, msg, spec))
+    acc.case(key=job, outcome='migrate')
+    acc.validated += 1
+    if ex.error:
+        V('C04.crash', f'migrate:{type(ex.error[2]).__name__}',
+          f'{job}: unexpected {ex.error[2]!r}')
+        return
+    moved = 0
+    snap = where = None
+    for ev in ex.trace:
+        if ev[0] == 'snap' and ev[2] in ('s1', 's2'):
+            snap, where = ev[5], ev[6]
+        elif ev[0] == 'invoke' and ev[2] in ('s1', 's2'):
+            env = where[0]
+            moved += ev[2] == 's1' and env == 'envB'
+            got = ev[6]['env']['nutrient']
+            want = snap[env]['nutrient']
+            if got != want:
+                V('C04.committed', 'stale-view-of-committed-state:'
+                  'after-move',
+                  f'{job}: {ev[2]} lives in {env} at t={ev[4]} and is '
+                  f'shown nutrient={got}, the committed state of {env} '
+                  f'holds {want}')
+                return
+    if not moved:
+        V('C04.committed', 'migrate-world-vacuous',
+          f'{job}: the moved sensor was never invoked in envB')
+
+
 def jobs(ctx):
     out = []
     ts_menu = [1, 2, 3, 0.75]
@@ -331,6 +473,13 @@ def jobs(ctx):
             for layout in ('chains', 'chains2', 'recruit'):
                 for sc in scripts[:2] if ctx.quick else scripts:
                     out.append((tss, layout, sc))
+    # one process is quiet at its first poll(s) and starts later
+    for tss in itertools.product(ts_menu, repeat=2):
+        for gate in ((0, 1), (1, 1), (0, 2)):
+            for n_steps in (0, 1):
+                for sc in scripts[:2] if ctx.quick else scripts:
+                    out.append((tss, n_steps, sc, gate))
+    out += migrate_jobs(ctx)
     return out
 
 
@@ -340,5 +489,10 @@ def run(ctx):
 
 def replay(case):
     acc = fw.Acc()
-    run_job((case['tss'], case['n_steps'], case['script']), acc)
+    if case.get('family') == 'migrate':
+        run_migrate(tuple(case['job']), acc)
+    else:
+        gate = case.get('gate')
+        run_job((case['tss'], case['n_steps'], case['script'],
+                 tuple(gate) if gate else None), acc)
     return [v for exs in acc.viol_examples.values() for v in exs]
